@@ -184,6 +184,12 @@ class Runner:
         self.trace.append({"ev": "Load"})
         return mism
 
+    def params_overflowed(self):
+        """A PARAMETER overflowed in a 16-bit dtype (a finite root times a finite gradient can exceed 65504): from then on gradients
+        (coupled weight decay) and factors are non-finite for a reason no property speaks about - drivers end the run there."""
+        return self.draw["dtype"] in ("float16", "bfloat16") and any(
+            not bool(torch.isfinite(p.detach().float()).all()) for ps in self.params for p in ps)
+
     def do_event(self, ev):
         """Non-step events of a behaviour.  Returns None if `ev` is a Step (caller handles it), else the mismatch list."""
         if ev["ev"] == "SetHyper":
@@ -455,10 +461,7 @@ def run_behaviour(draw, beh, pt2=None, numeric=True, stop_at_first=True, runner=
             out += [(i + 1,) + tuple(m) for m in mm]
             if stop_at_first:
                 break
-        if r.draw["dtype"] in ("float16", "bfloat16") and any(
-                not bool(torch.isfinite(p.detach().float()).all()) for ps in r.params for p in ps):
-            # a PARAMETER overflowed in a 16-bit dtype (a finite root times a finite gradient can exceed 65504): from here on the
-            # gradients (coupled weight decay) and factors are non-finite for a reason no property speaks about - the run ends here
+        if r.params_overflowed():
             break
     return out, {"cfg": r.abstract, "events": r.trace}
 
